@@ -175,11 +175,12 @@ func (c *CopyCommand) copyOneFile(srcRelPath, destRelPath string, tow io.Writer)
 		return nil
 	}
 
-	if err := updateFileDataWithPointsList(destDB, srcPlDif, now); err != nil {
+	writtenPl, err := updateFileDataWithTimeSeriesList(destDB, srcTsList, c.ArchiveID, c.From, until, now, c.CopyNaN)
+	if err != nil {
 		return err
 	}
 
-	if err := printFileData(tow, srcHeader, srcPlDif, true); err != nil {
+	if err := printFileData(tow, srcHeader, writtenPl, true); err != nil {
 		return err
 	}
 
